@@ -45,7 +45,7 @@ func VH_C13_single() {
 		}
 		u := int(wantUID)
 		ci.Chown = func(*User) (*User, error) { return &User{UID: u, GID: u}, nil }
-		tm := time.Unix(1234, 0)
+		tm := time.Unix(1234, 987654321) // nanosecond precision: not a whole micro- or millisecond
 		ci.Utime = &tm
 	}
 	srcPath := []string{"t/f", "t/l", "t/l", "t/d"}[what]
@@ -80,7 +80,7 @@ func VH_C13_single() {
 	if withOpts {
 		v.Cover("options")
 		v.Assert(got.Kind == want.Kind && string(got.Data) == string(want.Data) && got.Target == want.Target, "the copied entry has the source's type, bytes and link target")
-		v.Assert(got.Uid == wantUID && got.Gid == wantUID && got.Mtime == 1234000000000, "the copied entry carries the requested owner and timestamp")
+		v.Assert(got.Uid == wantUID && got.Gid == wantUID && got.Mtime == 1234987654321, "the copied entry carries the requested owner and timestamp")
 	} else {
 		v.Assert(vh_entryEqual(want, got, want.Kind != m.KSymlink), "the copied entry equals the source entry (a symlink is copied, not followed)")
 	}
@@ -111,7 +111,7 @@ func VH_C13_single() {
 				continue
 			}
 			if withOpts {
-				v.Assert(d.Uid == wantUID && d.Gid == wantUID && d.Mtime == 1234000000000, "directories created above the target get the requested owner and timestamp")
+				v.Assert(d.Uid == wantUID && d.Gid == wantUID && d.Mtime == 1234987654321, "directories created above the target get the requested owner and timestamp")
 			}
 		}
 	}
